@@ -121,6 +121,8 @@ class Parser:
             TokenType.FLOAT: self.parse_float_literal,
             TokenType.FUNCTION: self.parse_function_extension,
             TokenType.INT: self.parse_integer_literal,
+            TokenType.LPAREN: self.parse_grouped_expression,
+            TokenType.NOT: self.parse_prefix_expression,
             TokenType.NULL: self.parse_null,
             TokenType.ROOT: self.parse_root_query,
             TokenType.CURRENT: self.parse_relative_query,
@@ -482,6 +484,7 @@ class Parser:
 
     def parse_function_extension(self, stream: TokenStream) -> Expression:
         function_arguments: List[Expression] = []
+        logical_arguments: List[int] = []
         tok = stream.next_token()
 
         while stream.current.type_ != TokenType.RPAREN:
@@ -492,6 +495,11 @@ class Parser:
                     f"unexpected {stream.current.value!r}",
                     token=stream.current,
                 ) from err
+
+            # An argument starting with `!` or `(` is a logical expression,
+            # whatever is left of it once parsed.
+            if stream.current.type_ in (TokenType.NOT, TokenType.LPAREN):
+                logical_arguments.append(len(function_arguments))
 
             expr = func(stream)
 
@@ -510,6 +518,8 @@ class Parser:
                 stream.expect_peek_not(TokenType.RPAREN, "unexpected trailing comma")
 
             stream.next_token()
+
+        self._raise_for_logical_arguments(tok, function_arguments, logical_arguments)
 
         return FunctionExtension(
             token=tok,
@@ -677,6 +687,34 @@ class Parser:
 
     def _is_low_surrogate(self, codepoint: int) -> bool:
         return codepoint >= 0xDC00 and codepoint <= 0xDFFF
+
+    def _raise_for_logical_arguments(
+        self, token: Token, args: List[Expression], logical: List[int]
+    ) -> None:
+        """Check function arguments that were written as `!...` or `(...)`.
+
+        Parentheses leave no trace in the parsed expression, so these can't be
+        left to `check_well_typedness`.
+        """
+        func = self.env.function_extensions.get(token.value)
+        for idx in logical:
+            arg = args[idx]
+            if isinstance(arg, FilterExpressionLiteral):
+                raise JSONPathSyntaxError(
+                    "filter expression literals outside of "
+                    "function expressions must be compared",
+                    token=arg.token,
+                )
+            self._raise_for_uncompared_function(arg, token)
+            if (
+                isinstance(func, FilterFunction)
+                and idx < len(func.arg_types)
+                and func.arg_types[idx] != ExpressionType.LOGICAL
+            ):
+                raise JSONPathTypeError(
+                    f"{token.value}() argument {idx} must not be a logical expression",
+                    token=token,
+                )
 
     def _raise_for_uncompared_function(self, expr: Expression, token: Token) -> None:
         """Raise if _expr_, used as a test expression, is a ValueType function."""
